@@ -29,7 +29,11 @@ def jobs(tier, seed):
         add('single/eq/log=1/n3/lin+pair/B1+2', 'make_single', dict(rel='eq', B=1, log=True, bmode='none', n=3, shape='lin+pair', Bbig=2), 400)
         for rel, seq in [('le', ['ne_diff']), ('ne', ['le_sum']), ('gt', ['eq_diff'])]:
             add('seq/%s+%s/B1' % (rel, '+'.join(seq)), 'make_sequence', dict(rel=rel, B=1, log=True, seq=seq), 300)
+        for rel, seq in [('le', ['lt_trivial']), ('ge', ['gt_trivial'])]:
+            add('seq/%s+%s/B1/trivial' % (rel, '+'.join(seq)), 'make_sequence', dict(rel=rel, B=1, log=True, seq=seq), 300)
     else:
+        for rel, seq in [('le', ['lt_trivial']), ('ge', ['gt_trivial']), ('lt', ['ge_trivial']), ('gt', ['le_trivial'])]:
+            add('seq/%s+%s/B1/trivial' % (rel, '+'.join(seq)), 'make_sequence', dict(rel=rel, B=1, log=True, seq=seq), 2400)
         for rel in RELS:
             for log in ([True] if rel == 'eq' else [True, False]):
                 add('single/%s/log=%d/n2/dense/B2' % (rel, log), 'make_single', dict(rel=rel, B=2, log=log, bmode='none', n=2, shape='dense'), 2400)
